@@ -38,7 +38,7 @@ DArg(n) == CASE n = "b1" -> [delta |-> 2, index |-> 1, unique |-> TRUE]
 ZeroArgs == [delta |-> 0, index |-> 0, unique |-> FALSE, limit |-> 0, flag |-> FALSE, err |-> "", v |-> ""]
 
 (* history (not part of the implementation state): what has been applied / seen per channel *)
-Hist0 == [applied |-> 0, endings |-> 0, sawFinish |-> FALSE, sawResp |-> FALSE, accepted |-> FALSE, ended |-> FALSE, nc |-> FALSE]
+Hist0 == [applied |-> 0, endings |-> 0, sawFinish |-> FALSE, sawResp |-> FALSE, accepted |-> FALSE, ended |-> FALSE, reruns |-> 0]
 
 Init ==
   /\ store = [c \in Chans |-> ZeroRec("Requested")]
@@ -94,7 +94,9 @@ HistAfter(h, e, r0, r1, o) ==
             !.sawResp = @ \/ e = "ResponderCompletes",
             !.accepted = @ \/ e = "Accept",
             !.ended = @ \/ e \in {"Cancel","Error"},
-            !.nc = @ \/ (r0.status \in Cleanup /\ o.handler /\ r0.status = r1.status)]
+            \* CompleteCleanupOnRestart exists to run the cleanup of a cleaning-up channel AGAIN (after a process restart the first
+            \* run may not have happened); any other stay-and-re-run row taken in a cleanup status is NOT counted here
+            !.reruns = @ + (IF e = "CompleteCleanupOnRestart" /\ r0.status \in Cleanup /\ o.handler THEN 1 ELSE 0)]
 
 Plan(c) ==
   /\ ~busy[c] /\ ~closed[c] /\ q[c] # << >> /\ ~pset[c]
@@ -185,9 +187,10 @@ C03_Bookkeeping == [][\A c \in Chans : (~pset[c] /\ pset'[c]) =>
                 store[c].ip, store[c].rp, store[c].vouchers, store[c].results, store[c].limit, store[c].reqFin>>]_vars
 C03_Finalizing == \A c \in Chans : store[c].status = "Finalizing" => RespPausedView(store[c])
 
-(* C09: one cleanup + one unprotect per ending once terminal; never terminal without cleanup *)
+(* C09: one cleanup + one unprotect per ending (plus one per explicit clean-up-again request, CompleteCleanupOnRestart) *)
+(* once terminal; never terminal without cleanup                                                                      *)
 C09_ExactlyOnce == \A c \in Chans : store[c].status \in Terminal =>
-                      (env[c].cleanups = hist[c].endings /\ env[c].unprotects = hist[c].endings)
+                      (env[c].cleanups = hist[c].endings + hist[c].reruns /\ env[c].unprotects = env[c].cleanups)
 C09_NeverWithout == \A c \in Chans : (store[c].status \in Terminal /\ crashes = 0) => env[c].cleanups >= 1
 C09_Settles == \A c \in Chans : [](store[c].status \in Cleanup /\ nops = MaxOps /\ crashes = Crashes => <>(store[c].status \in Terminal))
 
